@@ -640,12 +640,7 @@ theorem categorize_spec (omegas : List String) (vs : List Vis) (hn : omegas.Nodu
 
 /-! ## resampling statistics -/
 
-theorem stats_sum_perm {l₁ l₂ : List Rat} (h : l₁.Perm l₂) : Stats.sum l₁ = Stats.sum l₂ := by
-  induction h with
-  | nil => rfl
-  | cons x _ ih => simp only [Stats.sum, List.foldr_cons] at *; rw [ih]
-  | swap x y l => simp only [Stats.sum, List.foldr_cons]; grind
-  | trans _ _ ih1 ih2 => rw [ih1, ih2]
+theorem stats_sum_perm {l₁ l₂ : List Rat} (h : l₁.Perm l₂) : Stats.sum l₁ = Stats.sum l₂ := sum_perm h
 
 /-- **Permutation invariance.**  Mean, variance (stderr², shrinkage) of a column do
     not depend on the order of the replicates. -/
@@ -691,6 +686,66 @@ theorem statistics_defs (xs ys : List Rat) (orig omega diag : Rat) :
     Stats.jack xs ys = Stats.cross xs ys * ((xs.length : Rat) - 1) / (xs.length : Rat) :=
   ⟨rfl, rfl, rfl, rfl, rfl⟩
 
+/-! ## delta-method standard errors -/
+
+/-- **delta_method_def.**  The squared delta-method standard error computed by
+    `se_delta_method` (symbols re-ordered to the covariance columns, sub-matrix cut
+    out by label, gradient in that order, `g C gᵀ`) equals the defining formula
+    `Σₐ Σ_b ∂f/∂a · Cov(a, b) · ∂f/∂b` summed over the expression's symbols — whatever
+    the order of the labels in the covariance matrix. -/
+theorem delta_method_def (syms : List String) (g : String → Rat) (c : Stats.LCov)
+    (hs : syms.Nodup) (hc : c.cols.Nodup) (hsub : ∀ s ∈ syms, s ∈ c.cols) :
+    Stats.deltaVar syms g c = Stats.quadForm syms g c.entry := by
+  unfold Stats.deltaVar
+  exact quadForm_perm (deltaNames_perm syms c.cols hs hc hsub) g _
+
+/-- The iteration order of `expr.free_symbols` (a set) does not matter. -/
+theorem delta_method_symbol_order_irrelevant (syms syms' : List String) (g : String → Rat) (c : Stats.LCov)
+    (hp : syms.Perm syms') (hs : syms.Nodup) (hc : c.cols.Nodup) (hsub : ∀ s ∈ syms, s ∈ c.cols) :
+    Stats.deltaVar syms g c = Stats.deltaVar syms' g c := by
+  rw [delta_method_def syms g c hs hc hsub,
+      delta_method_def syms' g c (hp.nodup hs) hc (fun s h => hsub s (hp.mem_iff.mpr h))]
+  exact quadForm_perm hp g _
+
+/-- Reading a cell by its labels does not depend on the order of the rows
+    (index labels distinct) … -/
+theorem lcov_entry_perm_rows (cols cols' : List String) (rows rows' : List (String × List (String × Rat)))
+    (hp : rows.Perm rows') (hn : (rows.map (·.1)).Nodup) (a b : String) :
+    ({ cols := cols, rows := rows } : Stats.LCov).entry a b = ({ cols := cols', rows := rows' } : Stats.LCov).entry a b := by
+  simp only [Stats.LCov.entry, lookupS_perm hp hn a]
+
+/-- … nor on the order of the cells within a row (column labels distinct). -/
+theorem lcov_entry_perm_cells (cols : List String) (rows : List (String × List (String × Rat)))
+    (f : List (String × Rat) → List (String × Rat)) (hf : ∀ r, (f r).Perm r)
+    (hn : ∀ kr ∈ rows, (kr.2.map (·.1)).Nodup) (a b : String) :
+    ({ cols := cols, rows := rows.map (fun kr => (kr.1, f kr.2)) } : Stats.LCov).entry a b
+      = ({ cols := cols, rows := rows } : Stats.LCov).entry a b := by
+  simp only [Stats.LCov.entry]
+  induction rows with
+  | nil => rfl
+  | cons kr rs ih =>
+    obtain ⟨k, r⟩ := kr
+    simp only [List.map_cons, Stats.lookupS]
+    by_cases hk : k = a
+    · simp only [hk, if_true]
+      have hnr := hn (k, r) (List.mem_cons_self ..)
+      have hp := hf r
+      rw [lookupS_perm hp ((hp.map _).nodup_iff.mpr hnr) b]
+    · simp only [hk, if_false]
+      exact ih (fun kr h => hn kr (List.mem_cons_of_mem _ h))
+
+/-- **delta_method_label_perm_invariant.**  Any simultaneous re-ordering of the
+    labelled covariance matrix — columns permuted, rows permuted — leaves the
+    result unchanged, as long as it is the same labelled matrix. -/
+theorem delta_method_label_perm_invariant (syms : List String) (g : String → Rat) (c c' : Stats.LCov)
+    (hs : syms.Nodup) (hc : c.cols.Nodup) (hsub : ∀ s ∈ syms, s ∈ c.cols)
+    (hcols : c.cols.Perm c'.cols) (hentry : ∀ a b, c'.entry a b = c.entry a b) :
+    Stats.deltaVar syms g c' = Stats.deltaVar syms g c := by
+  rw [delta_method_def syms g c hs hc hsub,
+      delta_method_def syms g c' hs (hcols.nodup hc) (fun s h => hcols.mem_iff.mp (hsub s h))]
+  have : c'.entry = c.entry := by funext a b; exact hentry a b
+  rw [this]
+
 /-! ## non-vacuity -/
 
 /-- The candidate set of tests/tools/test_run.py (base, m1 failing strictness, m2 = m3 tied, m4 worse):
@@ -727,5 +782,15 @@ example : isStrictnessFulfilled witnessRes
       (some (.or (.b .minimizationSuccessful) (.and (.b .roundingErrors) (.cmp .sigdigs .ge (1/10))))) = .ok true := by
   rw [(is_strictness_fulfilled_spec witnessRes none).2.2.2.2 _ rfl (Or.inl rfl)]
   congr 1
+
+/-- delta method on `POP_VC * (1 + 2.5 COVAPGR)`-like data: labels in model order (not lexical);
+    the hypotheses of `delta_method_def` hold and the value is the label-based quadratic form. -/
+example :
+    Stats.deltaVar ["COVAPGR", "POP_VC"] (fun s => if s = "POP_VC" then 3 else 1/2)
+      { cols := ["POP_CL", "POP_VC", "COVAPGR"],
+        rows := [("POP_CL", [("POP_CL", 1), ("POP_VC", 0), ("COVAPGR", 0)]),
+                 ("POP_VC", [("POP_CL", 0), ("POP_VC", 4), ("COVAPGR", 1)]),
+                 ("COVAPGR", [("POP_CL", 0), ("POP_VC", 1), ("COVAPGR", 2)])] } = 79 / 2 := by
+  decide +kernel
 
 end Pharmpy.C19
